@@ -59,4 +59,6 @@ for _pid, _txt in {
     "C13": "Contracts of AutonomousStateMachine.on_enable/on_iteration/done and of every inherited method re-verified for the AutonomousStateMachine receiver: the latch invariant AI1, "
            "L1 (latched off => nothing runs or changes), N1 (never cycles), X5.",
 }.items():
-    REGISTRY[_pid] = {"modules": ["sm"], "level": "proof", "level_text": _txt, "level_note": _SM_NOTE, "design_ref": f"DESIGN.md section 5 {_pid}"}
+    REGISTRY[_pid] = {"modules": ["sm"], "level": "proof", "level_text": _txt, "level_note": _SM_NOTE, "design_ref": f"DESIGN.md section 5 {_pid}",
+                      "replay": [PY, "native/replay_sm.py"],
+                      "standins": {"quick": {"bounded: real StateMachine/AutonomousStateMachine on random machine shapes, histories and action scripts vs a reference simulator and statement-level monitors": [PY, "native/replay_sm.py"]}}}
